@@ -143,7 +143,8 @@ class Ctx:
         """Pipe `lines` through the Lean line-protocol driver; one output line per input line."""
         if not lines:
             return []
-        inp = self.work / (Path(driver).stem + ".in")
+        self._batch = getattr(self, "_batch", 0) + 1
+        inp = self.work / f"{Path(driver).stem}.{self._batch}.{os.getpid()}.in"
         inp.write_text("\n".join(lines) + "\n")
         exe = LEAN / ".lake" / "build" / "bin" / ("drv_" + Path(driver).stem.lower())
         if exe.exists():
